@@ -98,6 +98,7 @@ func (r *c01Broker) session(id int) (*Auto, error) {
 		ver = mqttp.ProtocolV311
 	}
 	cl := r.b.Dial()
+	cl.LenientUnsuback = true
 	if _, err := cl.Connect(ConnectOpts{ID: fmt.Sprintf("c01s%d", id), Ver: ver, Clean: true}); err != nil {
 		return nil, err
 	}
